@@ -320,6 +320,8 @@ def gen_term(rng, cfg, d, pool=None):
     if o == 'exp':
         # keep the argument small: exp(x/8) never overflows on dyadic data in [-8, 8]
         return N('exp', N('div', gen_term(rng, cfg, max(d - 2, 0), pool), C(8.0)))
+    if o == 'sqrt' and rng.random() < 0.35:
+        return N('sqrt', N('abs', gen_term(rng, cfg, max(d - 1, 0), pool)))      # >= 0: the root of exactly 0 included
     if o in ('sqrt', 'ln'):
         return N(o, safe)
     if o == 'pow':
